@@ -16,6 +16,7 @@ REQUIRED = [
     "xor_data_lawful", "iblt_data_lawful", "reRoot_overflow_witness",
     "state_refines_spec", "stored_set_changes_only_on_success", "add_rejected_noop", "rollback_restores", "restart_equiv",
     "clocks_downward_closed", "repair_idle_on_healthy_state", "repair_local", "repair_restores",
+    "tree_inv_load", "tree_inv_replace", "zeroTo_clock_of_contiguous", "first_write_rollback_defect_before_fix",
     "fact_page_size", "fact_iblt_buckets", "fact_shelves", "fact_load_empty_resets", "fact_rollback_reload_context",
     "fact_add_tx_options", "fact_comparisons", "fact_call_structure",
 ]
